@@ -23,6 +23,12 @@ func c15Scenarios(tier string) (rulesSc, lockSc []CScenario) {
 			}
 		}
 	}
+	// The same pairs with the bytewise order of the keys reversed (lock acquisition may be ordered by key bytes).
+	for i := 6; i < len(lists); i++ {
+		for j := i; j < len(lists); j++ {
+			lockSc = append(lockSc, CScenario{Name: "desc:atts" + name(lists[i]) + "||atts" + name(lists[j]), Threads: [][]CReq{{attsN(lists[i], 0, 1)}, {attsN(lists[j], 1, 2)}}, DescKeys: true})
+		}
+	}
 	// Multisign batches against attest batches in opposite order.
 	for i := 0; i < 6; i++ {
 		lockSc = append(lockSc, CScenario{Name: "signs" + name(lists[i]) + "||atts" + name(lists[(i+1)%6]), Threads: [][]CReq{{signsN(lists[i]...)}, {attsN(lists[(i+1)%6], 0, 1)}}})
